@@ -361,7 +361,7 @@ pub fn c01(tier: &str) -> i32 {
     crate::absx::run_closure(
         &mut out,
         &mon,
-        &crate::absx::ClosureCfg { label: "C01: core actions + create/place", max_rest: if t { 4 } else { 3 }, max_vol: if t { 3 } else { 2 }, modify: false, toggles: false, create: true, redundant: false, ties: false, prices: 3 },
+        &crate::absx::ClosureCfg { label: "C01: core actions + create/place", max_rest: if t { 4 } else { 3 }, max_vol: if t { 3 } else { 2 }, modify: false, toggles: false, create: true, redundant: false, ties: false, prices: 3, reload_depth: 0 },
         t,
     );
     out.assumptions = vec![
@@ -613,7 +613,7 @@ pub fn c04(tier: &str) -> i32 {
     crate::absx::run_closure(
         &mut out,
         &mon,
-        &crate::absx::ClosureCfg { label: "C04: redundant requests on every dead class in every state", max_rest: if t { 3 } else { 2 }, max_vol: 2, modify: true, toggles: true, create: true, redundant: true, ties: false, prices: 3 },
+        &crate::absx::ClosureCfg { label: "C04: redundant requests on every dead class in every state", max_rest: if t { 3 } else { 2 }, max_vol: 2, modify: true, toggles: true, create: true, redundant: true, ties: false, prices: 3, reload_depth: 0 },
         t,
     );
     out.finish()
@@ -664,7 +664,7 @@ pub fn c06(tier: &str) -> i32 {
     crate::absx::run_closure(
         &mut out,
         &mon,
-        &crate::absx::ClosureCfg { label: "C06: every modify shape on every queue rank", max_rest: 3, max_vol: if t { 3 } else { 2 }, modify: true, toggles: false, create: false, redundant: false, ties: false, prices: 3 },
+        &crate::absx::ClosureCfg { label: "C06: every modify shape on every queue rank", max_rest: 3, max_vol: if t { 3 } else { 2 }, modify: true, toggles: false, create: false, redundant: false, ties: false, prices: 3, reload_depth: 0 },
         t,
     );
     out.assumptions = vec!["reference model encodes the statement: only (no price, smaller volume) keeps the seat".into()];
@@ -769,7 +769,7 @@ pub fn c13(tier: &str) -> i32 {
     crate::absx::run_closure(
         &mut out,
         &mon,
-        &crate::absx::ClosureCfg { label: "C13: trading flag in the key (crossed books reachable)", max_rest: if t { 3 } else { 2 }, max_vol: 2, modify: true, toggles: true, create: false, redundant: false, ties: false, prices: 3 },
+        &crate::absx::ClosureCfg { label: "C13: trading flag in the key (crossed books reachable)", max_rest: if t { 3 } else { 2 }, max_vol: 2, modify: true, toggles: true, create: false, redundant: false, ties: false, prices: 3, reload_depth: 0 },
         t,
     );
     crate::marketx::c13_market_part(&mut out, t);
@@ -867,14 +867,23 @@ pub fn c05_book(out: &mut Outcome, t: bool) {
     crate::absx::run_closure(
         out,
         &mon2,
-        &crate::absx::ClosureCfg { label: "C05: tie closure (clock {0,+1}, modify, toggles)", max_rest: 3, max_vol: 2, modify: true, toggles: t, create: false, redundant: false, ties: true, prices: 2 },
+        &crate::absx::ClosureCfg { label: "C05: tie closure (clock {0,+1}, modify, toggles)", max_rest: 3, max_vol: 2, modify: true, toggles: t, create: false, redundant: false, ties: true, prices: 2, reload_depth: 0 },
         t,
+    );
+    // the same with snapshot reloads among the actions (C05 demands C07 on tie histories): the
+    // rebuilt index must queue later arrivals behind keys that run ahead of the clock
+    let mon3 = Monitors { reload_equal: true, ..mon2.clone() };
+    crate::absx::run_closure(
+        out,
+        &mon3,
+        &crate::absx::ClosureCfg { label: "C05: tie closure with snapshot reloads", max_rest: if t { 3 } else { 2 }, max_vol: 2, modify: true, toggles: false, create: false, redundant: false, ties: true, prices: 2, reload_depth: if t { 2 } else { 1 } },
+        false,
     );
     if t {
         crate::absx::run_closure(
             out,
             &mon2,
-            &crate::absx::ClosureCfg { label: "C05: tie closure, three prices, create/place", max_rest: 2, max_vol: 2, modify: true, toggles: true, create: true, redundant: false, ties: true, prices: 3 },
+            &crate::absx::ClosureCfg { label: "C05: tie closure, three prices, create/place", max_rest: 2, max_vol: 2, modify: true, toggles: true, create: true, redundant: false, ties: true, prices: 3, reload_depth: 0 },
             false,
         );
     }
